@@ -101,6 +101,7 @@ pub fn run_param(case: &Value) -> Value {
             let stop = Arc::new(AtomicBool::new(false));
             let torn_get = Arc::new(AtomicU64::new(0)); let torn_exec = Arc::new(AtomicU64::new(0));
             let reads = Arc::new(AtomicU64::new(0)); let execs = Arc::new(AtomicU64::new(0));
+            let deep_clones = Arc::new(AtomicU64::new(0)); let deep_shared = Arc::new(AtomicU64::new(0));
             let millis = case.get("millis").map(vu).unwrap_or(600) as u64;
             std::thread::scope(|sc| {
                 for w in 0..vu(&case["writers"]) {
@@ -110,15 +111,28 @@ pub fn run_param(case: &Value) -> Value {
                 for _ in 0..vu(&case["readers"]) {
                     let (p, stop1, tg, rd) = (p.clone(), stop.clone(), torn_get.clone(), reads.clone());
                     sc.spawn(move || { while !stop1.load(Ordering::Relaxed) { let v = p.get(); rd.fetch_add(1, Ordering::Relaxed);
+                        if v[0] == 9.25 && v[1] == -9.5 { continue; }   // the deep-clone marker: counted by the cloner thread
                         if !((v[0].to_bits() == a[0].to_bits() && v[1].to_bits() == a[1].to_bits()) || (v[0].to_bits() == bb[0].to_bits() && v[1].to_bits() == bb[1].to_bits())) { tg.fetch_add(1, Ordering::Relaxed); } } });
                     let (stop2, te, ex, circ, zero, sa, sb) = (stop.clone(), torn_exec.clone(), execs.clone(), &circ, &zero, &sa, &sb);
                     sc.spawn(move || { while !stop2.load(Ordering::Relaxed) { let s = circ.execute(zero).unwrap(); ex.fetch_add(1, Ordering::Relaxed);
                         if !(same(&s, sa) || same(&s, sb)) { te.fetch_add(1, Ordering::Relaxed); } } });
                 }
+                // deep_clone under contention: the copy is private to this thread, so it must keep the marker written to it
+                // (whatever the writers do to the original) and the original must never show the marker
+                {
+                    let (p, stop3, dc, ds) = (p.clone(), stop.clone(), deep_clones.clone(), deep_shared.clone());
+                    sc.spawn(move || { let marker = [9.25f64, -9.5f64]; while !stop3.load(Ordering::Relaxed) {
+                        let d = p.deep_clone(); d.set(marker); dc.fetch_add(1, Ordering::Relaxed);
+                        let mut shared = false;
+                        for _ in 0..20 { let v = d.get(); if v[0].to_bits() != marker[0].to_bits() || v[1].to_bits() != marker[1].to_bits() { shared = true; }
+                                         let o = p.get(); if o[0].to_bits() == marker[0].to_bits() { shared = true; } }
+                        if shared { ds.fetch_add(1, Ordering::Relaxed); p.set(a); } } });
+                }
                 std::thread::sleep(std::time::Duration::from_millis(millis));
                 stop.store(true, Ordering::Relaxed);
             });
             json!({"r": "ok", "reads": reads.load(Ordering::Relaxed), "execs": execs.load(Ordering::Relaxed),
+                   "deep_clones": deep_clones.load(Ordering::Relaxed), "deep_shared": deep_shared.load(Ordering::Relaxed),
                    "torn_get": torn_get.load(Ordering::Relaxed), "torn_exec": torn_exec.load(Ordering::Relaxed), "distinct_candidates": !same(&sa, &sb)})
         }
         m => json!({"r": "harness_error", "e": format!("param mode {}", m)}),
